@@ -13,7 +13,15 @@
                                     channels, titles without control characters, Char of any scalar value (controls:
                                     Denote.v decisions D8, D10)
      pal256 / gray4                 the palette index / grey level chosen for a colour under the reduced
-                                    depths: any functions (which entry is chosen is property C20) *)
+                                    depths: any functions (which entry is chosen is property C20)
+
+   FINAL STATE.  Counted (Theorem, 16): C05_meaning, C05_face_exact, C05_face_reduced, C05_facemodify_reduced,
+   C05_selfcontained, C05_stream_after_complete_prefix, C05_stream_one_encoder, C05_parser_concat, C05_nopanic,
+   C05_nopanic_with_reduction, C05_char_introducer_refuted_before_fix, C05_decmodes, and the composition with C01:
+   C05_C01_bytes, C05_C01_list, C05_C01_history_bytes, C05_C01_history_final.  Audited, not counted (Example):
+   C05_meaning_nonvacuous, C05_char_introducer_witnesses, C05_reduced_selfcontained_nonvacuous,
+   C05_one_encoder_nonvacuous, C05_refuted_before_fixes, C05_C01_nonvacuous.  Spec decisions D1-D10: Encoder/Denote.v.
+   Defects fixed in the crate: dc2484b 99cef6a 79f9e06 bdc3281 3326eaa c4fb555 4d6dbe2 cdeff57 73d8d1c; none open. *)
 From Coq Require Import List NArith ZArith Bool.
 From SNT Require Import Base.Outcome Encoder.Decimal Encoder.Utf8 Encoder.Encode Encoder.EncodeStream Encoder.EncodeOrig Encoder.VT
   Encoder.VTProofs Encoder.Denote Encoder.EncodeProofs Encoder.EncodeMeaning Encoder.Color256 Encoder.EncodeC20 Encoder.Term.
@@ -131,8 +139,8 @@ Proof. exact encode_total. Qed.
        EightBit arm with explicit panic sites (CUBE[..], GREYS[..] indexing; nearest's
        `len - 1`), over the regenerated tables.  Not modelled: f32 evaluation
        (partial_cmp().unwrap() cannot fail on the finite values involved); the
-       exhaustive run of c20sweep encodes all 2^24 colours under every depth on
-       every check and reports a panic as a violation. *)
+       c20sweep run (every 3rd colour as an extra hook of this check, all 2^24 colours in C20's check)
+       encodes the colours under every depth and reports a panic as a violation. *)
 Theorem C05_nopanic_with_reduction :
   forall (cp : caps) (c : cmd), is_ok (encode_c20 cp c) = true.
 Proof. exact encode_c20_total. Qed.
